@@ -393,6 +393,10 @@ def shape_oracle(ctx, xt):
         ("sub-mismatch", lambda: ops["user"] - ops["rect"]),
         ("hermitian-nonsquare", lambda: leaf_class(xt, (False, False, False, False))(rect, 1, True)),
         ("m-false-hermitian", lambda: xt.LinearOperator.m(mat + torch.triu(torch.ones(n, n, dtype=torch.float64), 1), is_hermitian=True)),
+        # a product of two dense operands DECLARED Hermitian is checked like LinearOperator.m (round-5 seed C11/13: the dense
+        # shortcut of matmul built the operator without the check, rmv / rmm of the result then disagreed with fullmatrix)
+        ("matmul-dense-false-hermitian", lambda: xt.LinearOperator.m(torch.tensor([[1.0, 2.0, 0.0], [2.0, 3.0, 1.0], [0.0, 1.0, 2.0]], dtype=torch.float64)).matmul(
+            xt.LinearOperator.m(torch.diag(torch.arange(1.0, n + 1, dtype=torch.float64))), is_hermitian=True)),
         ("scalar-nonnumber", lambda: ops["user"] * "2"),
         ("shape-1d", lambda: leaf_class(xt, (False, False, False, False))(torch.zeros(3, dtype=torch.float64), 2, False)),
     ]
